@@ -794,6 +794,9 @@ impl Engine for C10 {
             } else {
                 CostSpec::Truthful
             };
+            // a free (declared cost 0) attempt whose bytes alone may not fit
+            let has_big_blob = bundles.iter().any(|b| b.spends.iter().any(|s| s.conds.iter().any(|c| matches!(c, CondSpec::Remark { blob } if *blob >= 4))));
+            let cost = if fault_pct > 0 && (has_big_blob && rng.chance(1, 3) || rng.chance(1, 60)) { CostSpec::Fixed(0) } else { cost };
             ops.push(Op::Add { bundles, cost });
         }
         Case { interned, max_cost, cost_per_byte, cost_conditions, ops }
